@@ -177,6 +177,11 @@ func altValues(fam string, seed int64, tier string) []interface{} {
 		vs = append(vs, mapThenLists{M: zoo.NamedMap{"k": 1}, L1: []int32{1}, L2: []int32{2}, L3: []string{"a"}, L4: []string{"b"}},
 			[]interface{}{zoo.NamedMap{"k": 1}, []int32{1}, zoo.NamedMap{"j": 2}, []int32{2}})
 		vs = append(vs, &zoo.Node{Name: "d", A: sh, B: sh}, &zoo.Node{Name: "m", M: map[string]*zoo.Node{"k": sh}, L: []*zoo.Node{sh}})
+		// the same map twice in interface slots (of a list, of a map field): the second is a back-reference
+		m1 := map[string]int32{"a": 1}
+		vs = append(vs, []interface{}{m1, m1}, zoo.BadInMap{M: map[string]interface{}{"x": m1, "y": m1}}, []interface{}{zoo.NamedMap{"k": 1}, "s"})
+		nm1 := zoo.NamedMap{"k": 2}
+		vs = append(vs, []interface{}{nm1, nm1})
 		return vs
 	case "c09": // strings and binaries in every position: every legal chunking (empty chunks included) is enumerated by TLC
 		var vs []interface{}
